@@ -31,6 +31,10 @@ for name, m in sorted(ctx.py.modules.items()):
                         walk([x for x in b if isinstance(x, ast.stmt)], prefix)
     walk(ast.parse(m.source).body, '')
     out[name] = sorted(set(quals))
+    # module-level names (N21 folds constants that are *not* listed here back into their readers)
+    out[name + '#names'] = sorted(set(t.id for s in ast.parse(m.source).body if isinstance(s, (ast.Assign, ast.AugAssign, ast.AnnAssign))
+                                      for tg in (s.targets if isinstance(s, ast.Assign) else [s.target]) for t in ast.walk(tg)
+                                      if isinstance(t, ast.Name)))
 with open(os.path.join(HERE, 'sa', 'baseline_funcs.json'), 'w') as f:
     json.dump(out, f, indent=0, sort_keys=True)
 import shutil
@@ -44,4 +48,4 @@ head = os.popen('git -C %s log --oneline -1' % core.REPO).read().strip()
 with open(os.path.join(HERE, 'reference', 'README'), 'w') as f:
     f.write('Snapshot of the analysed Python modules of /repo as they were when every obligation of the rules was last confirmed on them\n'
             '(%s). Used only by sa/core.py to recognise a function that is unchanged modulo the normal form (DESIGN 11.2).\n' % head)
-print(sum(len(v) for v in out.values()), 'functions in', len(out), 'modules; reference sources copied')
+print(sum(len(v) for k, v in out.items() if '#' not in k), 'functions in', sum(1 for k in out if '#' not in k), 'modules; reference sources copied')
